@@ -526,8 +526,27 @@ class Retention(Sub):
 # --------------------------------------------------------------------------
 # I3 host immutability
 
-def host_lists():
-    return [[3, 1, 2], [[3, 1], [2, 'b']], [], ['b', 'a', None], [2.5, [1, [0]]], [[5, 4, 3, 2]]]
+def host_lists(env=None):
+    out = [[3, 1, 2], [[3, 1], [2, 'b']], [], ['b', 'a', None], [2.5, [1, [0]]], [[5, 4, 3, 2]],
+           [[1, 2, 3], [4]]]                                   # ragged rows
+    if env is not None:
+        out.append([1, env.err.XLError('#N/A'), 3])            # an error object of the host's own making among the items
+    else:
+        out.append([1, 3])
+    return out
+
+
+def snap(v):
+    """comparable picture of a host value: structure, values, and for error objects what raising leaves on them"""
+    if isinstance(v, list):
+        return ['list', [snap(x) for x in v]]
+    if isinstance(v, BaseException):
+        n, tb = 0, v.__traceback__
+        while tb is not None:
+            n, tb = n + 1, tb.tb_next
+        return ['exc', type(v).__name__, [str(a) for a in v.args], 'traceback frames: %d' % n,
+                'context: %s' % (type(v.__context__).__name__ if v.__context__ is not None else None)]
+    return ['val', enc(v), type(v).__name__]
 
 
 SCALARS = [2, 'a', None]
@@ -535,8 +554,8 @@ SCALARS = [2, 'a', None]
 
 class Immutable(Sub):
     name = 'c02.immutability'
-    rule = ('every documented function x arity <= A x every argument tuple with >= 1 host list among the arguments (6 '
-            'lists, 3 scalars), the list supplied as variable value, as cell/range listener value and as custom-function '
+    rule = ('every documented function x arity <= A x every argument tuple with >= 1 host list among the arguments (8 '
+            'lists incl. ragged rows and one holding an error object of the host\'s own making, 3 scalars), the list supplied as variable value, as cell/range listener value and as custom-function '
             'result; plus operator paths with array operands: every host object is deep-equal (and inner lists identical '
             'objects) after the evaluation; non-trivial = all')
     min_cases = 150
@@ -554,7 +573,7 @@ class Immutable(Sub):
 
     def check(self, env, case):
         from .c09 import supported_lists
-        lists = host_lists()
+        lists = host_lists(env)
         pool = lists + SCALARS
         out = []
         if case[0] == 'fn':
@@ -576,21 +595,22 @@ class Immutable(Sub):
         form = OPFORMS[case[1]]
         for i in range(len(lists)):
             for j in range(len(pool)):
-                vals = [copy.deepcopy(pool[i]), copy.deepcopy(pool[j])]
-                before = copy.deepcopy(vals)
+                fresh = host_lists(env) + SCALARS
+                vals = [fresh[i], copy.deepcopy(fresh[j]) if j < len(lists) - 1 else (host_lists(env) + SCALARS)[j]]
+                before = snap(vals)
                 r = env.ev(form, vars={'xa': vals[0], 'xb': vals[1]})
+                r = env.ev(form, vars={'xa': vals[0], 'xb': vals[1]})       # twice: what accumulates shows
                 env.nt()
-                if vals != before:
-                    out.append(fail('%r with xa=%r, xb=%r changed a host value: now %r' % (form, before[0], before[1], vals),
-                                    enc(before), enc(vals)))
+                if snap(vals) != before:
+                    out.append(fail('%r with xa=%r, xb=%r changed a host value: %r -> %r' % (form, enc(vals[0]), enc(vals[1]), before, snap(vals)),
+                                    before, snap(vals)))
                     if len(out) > 3:
                         return out
         return out
 
     def one(self, env, name, argn, idxs, route):
-        pool = host_lists() + SCALARS
-        vals = [copy.deepcopy(pool[i]) for i in idxs]
-        before = copy.deepcopy(vals)
+        vals = [(host_lists(env) + SCALARS)[i] for i in idxs]      # fresh objects for every argument
+        before = snap(vals)
         inner_ids = [[id(x) for x in v] if isinstance(v, list) else None for v in vals]
         env.nt()
         if route == 'var':
@@ -606,9 +626,9 @@ class Immutable(Sub):
             text = '%s(%s)' % (name, ','.join('HOSTV(%d)' % k for k in range(len(vals))))
             env.ev(text, funcs={'HOSTV': lambda k: vals[int(k)]})
         after_ids = [[id(x) for x in v] if isinstance(v, list) else None for v in vals]
-        if vals != before or after_ids != inner_ids:
-            return fail('%s (route %s) with arguments %r mutated a host value: now %r' % (text, route, before, vals),
-                        enc(before), enc(vals))
+        if snap(vals) != before or after_ids != inner_ids:
+            return fail('%s (route %s) mutated a host value: %r -> %r' % (text, route, before, snap(vals)),
+                        before, snap(vals))
         return None
 
 
